@@ -5,6 +5,7 @@ import (
 
 	"github.com/cockroachdb/pebble/internal/base"
 	sym "github.com/cockroachdb/pebble/internal/verifsym"
+	"github.com/cockroachdb/pebble/sstable"
 )
 
 // hAttachBackings does what manifest replay does after Decode: virtual tables
@@ -182,4 +183,140 @@ func VerifHarness_C23_LongLengths() {
 		}
 		sym.Reach("decoded")
 	})
+}
+
+func hSmall(name string) uint64 {
+	v := sym.U8(name)
+	sym.Assume(v < 128) // one-byte varint: no case split on the encoded length
+	return uint64(v)
+}
+
+// hTable builds one new-table entry with symbolic numbers, bounds, sequence numbers and, when
+// options is set, every optional per-table field (creation time, virtual + backing, synthetic
+// prefix and/or suffix, range keys with or without sets, blob references).
+func hTable(v *VersionEdit, options bool) NewTableEntry {
+	cmp := base.DefaultComparer.Compare
+	m := &TableMetadata{
+		TableNum: base.TableNum(sym.U16("table-num")), // 1..3 byte varint
+		Size:     hSmall("size") + 1,
+	}
+	m.SeqNums.Low, m.SeqNums.High = base.SeqNum(hSmall("seq-low")), base.SeqNum(hSmall("seq-high"))
+	m.LargestSeqNumAbsolute = m.SeqNums.High
+	lo, hi := sym.U8("smallest"), sym.U8("largest")
+	sym.Assume(lo <= hi)
+	var prefix, suffix []byte
+	virtual := false
+	if options {
+		virtual = sym.Bool("virtual")
+		if virtual && sym.Bool("synthetic-prefix") {
+			prefix = []byte{sym.U8("prefix-byte")}
+		}
+		if virtual && sym.Bool("synthetic-suffix") {
+			suffix = []byte{sym.U8("suffix-byte")}
+		}
+	}
+	smallestKey, largestKey := append(append([]byte(nil), prefix...), lo), append(append([]byte(nil), prefix...), hi)
+	largestTrailer := base.MakeTrailer(base.SeqNum(sym.U8("largest-seq")), base.InternalKeyKindSet)
+	if sym.Bool("largest-exclusive") {
+		largestTrailer = base.InternalKeyTrailer(base.InternalKeyRangeDeleteSentinel)
+	}
+	m.ExtendPointKeyBounds(cmp,
+		base.InternalKey{UserKey: smallestKey, Trailer: base.MakeTrailer(base.SeqNum(sym.U8("smallest-seq")), base.InternalKeyKindSet)},
+		base.InternalKey{UserKey: largestKey, Trailer: largestTrailer})
+	nt := NewTableEntry{Level: 6, Meta: m}
+	if options {
+		if sym.Bool("range-keys") {
+			kinds := AnyRangeKeys
+			if sym.Bool("no-range-key-sets") {
+				kinds = OnlyRangeKeyUnsetAndDelete
+			}
+			m.ExtendRangeKeyBounds(cmp, kinds,
+				base.InternalKey{UserKey: smallestKey, Trailer: base.MakeTrailer(base.SeqNum(sym.U8("rk-seq")), base.InternalKeyKindRangeKeySet)},
+				base.MakeExclusiveSentinelKey(base.InternalKeyKindRangeKeySet, largestKey))
+		}
+		if sym.Bool("creation-time") {
+			m.CreationTime = int64(hSmall("creation-time")) + 1
+		}
+		if sym.Bool("blob-reference") {
+			m.BlobReferenceDepth = BlobReferenceDepth(hSmall("blob-depth"))
+			m.BlobReferences = BlobReferences{{FileID: base.BlobFileID(hSmall("blob-file-id")), ValueSize: hSmall("blob-value-size")}}
+			if virtual {
+				m.BlobReferences[0].BackingValueSize = hSmall("blob-backing-value-size")
+			}
+		}
+	}
+	if virtual {
+		m.Virtual = true
+		nt.BackingFileNum = base.DiskFileNum(hSmall("backing-num"))
+		m.TableBacking = &TableBacking{DiskFileNum: nt.BackingFileNum, Size: hSmall("backing-size") + 1}
+		m.SyntheticPrefixAndSuffix = sstable.MakeSyntheticPrefixAndSuffix(prefix, suffix)
+		v.CreatedBackingTables = append(v.CreatedBackingTables, m.TableBacking)
+	} else {
+		m.InitPhysicalBacking()
+	}
+	return nt
+}
+
+func hEncodeDecode(v *VersionEdit) {
+	sym.NoPanic("encode-decode", func() {
+		var b bytes.Buffer
+		sym.Assert(v.Encode(&b) == nil, "edit-encodes")
+		var v2 VersionEdit
+		err := v2.Decode(bytes.NewReader(b.Bytes()))
+		sym.Assert(err == nil, "encoded-edit-decodes")
+		if err != nil {
+			return
+		}
+		hAttachBackings(&v2)
+		sym.Assert(hEditEq(v, &v2), "decode-of-encode-equals-the-edit")
+		var b2 bytes.Buffer
+		sym.Assert(v2.Encode(&b2) == nil, "second-encode-succeeds")
+		sym.Assert(bytes.Equal(b.Bytes(), b2.Bytes()), "encoding-is-a-fixpoint")
+	})
+}
+
+// VerifHarness_C23_EncodeDecodeTable: an edit adding one table with every
+// combination of the optional per-table fields encodes to bytes that decode to
+// the same edit, and re-encoding is a fixpoint. A second, plain table follows, so
+// an entry that is not properly terminated corrupts what comes after it.
+func VerifHarness_C23_EncodeDecodeTable() {
+	var v VersionEdit
+	v.NewTables = append(v.NewTables, hTable(&v, true))
+	if sym.Bool("second-table") {
+		m := &TableMetadata{TableNum: 9, Size: 1}
+		m.ExtendPointKeyBounds(base.DefaultComparer.Compare, base.MakeInternalKey([]byte{'x'}, 1, base.InternalKeyKindSet), base.MakeInternalKey([]byte{'y'}, 1, base.InternalKeyKindSet))
+		m.InitPhysicalBacking()
+		v.NewTables = append(v.NewTables, NewTableEntry{Level: 5, Meta: m})
+	}
+	hEncodeDecode(&v)
+	sym.Reach("table")
+}
+
+// VerifHarness_C23_EncodeDecodeEdit: the edit-level fields - scalars, deleted
+// tables, created and removed backings, a blob file, an excise record, a
+// compaction mark - around a plain new table.
+func VerifHarness_C23_EncodeDecodeEdit() {
+	var v VersionEdit
+	if sym.Bool("scalars") {
+		v.MinUnflushedLogNum = base.DiskFileNum(sym.U16("min-unflushed-log"))
+		v.NextFileNum = hSmall("next-file-num")
+		v.LastSeqNum = base.SeqNum(hSmall("last-seqnum"))
+	}
+	v.NewTables = append(v.NewTables, hTable(&v, false))
+	if sym.Bool("deleted-table") {
+		v.DeletedTables = map[DeletedTableEntry]*TableMetadata{{Level: 6, FileNum: base.TableNum(hSmall("deleted-num"))}: nil}
+	}
+	if sym.Bool("removed-backing") {
+		v.RemovedBackingTables = []base.DiskFileNum{base.DiskFileNum(hSmall("removed-backing"))}
+	}
+	if sym.Bool("blob-file") {
+		v.NewBlobFiles = []BlobFileMetadata{{FileID: base.BlobFileID(hSmall("blob-id")), Physical: &PhysicalBlobFile{
+			FileNum: base.DiskFileNum(hSmall("blob-file-num")), Size: hSmall("blob-size"), ValueSize: hSmall("blob-value-size"), CreationTime: hSmall("blob-creation-time"),
+		}}}
+	}
+	if sym.Bool("excise") {
+		v.ExciseBoundsRecord = []ExciseOpEntry{{Bounds: base.UserKeyBoundsEndExclusive([]byte{sym.U8("excise-start")}, []byte{sym.U8("excise-end")}), SeqNum: base.SeqNum(hSmall("excise-seq"))}}
+	}
+	hEncodeDecode(&v)
+	sym.Reach("edit")
 }
